@@ -143,6 +143,62 @@ func runC19(r *Run) {
 	}
 	rv.Done()
 
+	// ---- NewType(method, class): the constructor keeps every live bit
+	if nt := p.Fn("NewType"); nt != nil && len(nt.Params) == 2 {
+		nr := r.Rule("C19.newtype", "NewType(method, class) stores the 12 method bits and the 2 class bits unchanged (higher bits may be dropped): a constructed type encodes as fig.3 says for every method and class", 14)
+		r.Analysed(nt)
+		ev := &BitEval{fn: nt, memo: map[ssa.Value]bitvec{}}
+		ev.Input = func(v ssa.Value) (string, bool) {
+			switch v {
+			case ssa.Value(nt.Params[0]):
+				return "M", true
+			case ssa.Value(nt.Params[1]):
+				return "C", true
+			}
+			return "", false
+		}
+		stored := map[string]ssa.Value{}
+		nStores := map[string]int{}
+		eachInstr(nt, func(b *ssa.BasicBlock, i int, in ssa.Instruction) {
+			if st, ok := in.(*ssa.Store); ok {
+				if fv := fieldOfAddr(st.Addr); fv != nil && srcName(fv) != "" {
+					stored[srcName(fv)] = st.Val
+					nStores[srcName(fv)]++
+				}
+			}
+		})
+		for _, f := range []struct {
+			src  string
+			live int
+		}{{"M", 12}, {"C", 2}} {
+			v := stored[f.src]
+			if v == nil || nStores[f.src] != 1 {
+				nr.Fail("NewType field "+f.src, "the constructor does not store the field exactly once: undecided")
+				continue
+			}
+			bv := ev.Eval(v)
+			for i := 0; i < len(bv); i++ {
+				got := bv[i]
+				ok := got.K == bIn && got.Src == f.src && got.N == i
+				if i >= f.live && got.K == bZero {
+					ok = true
+				}
+				if i < f.live {
+					key := fmt.Sprintf("NewType.%s%d", f.src, i)
+					nr.Instance(key, true, map[string]string{"bit": key, "derived": got.String()})
+				}
+				if !ok {
+					pos := nt.Pos()
+					if vi, isI := v.(ssa.Instruction); isI {
+						pos = instrPos(vi)
+					}
+					nr.Violation(nt, pos, fmt.Sprintf("NewType %s bit %d", f.src, i), fmt.Sprintf("the stored bit is %s, not %s%d of the argument: the constructed type differs from the requested one and encodes as another method/class", got, f.src, i))
+				}
+			}
+		}
+		nr.Done()
+	}
+
 	// ---- ReadValue(v): stored bits
 	rr := r.Rule("C19.read", "ReadValue(v) stores Class = [v4,v8] and Method = [v0-3,v5-7,v9-13]; bits 14-15 of v and all other positions are zero", 24)
 	inv := r.Rule("C19.inverse", "Value and ReadValue are mutually inverse on the 14 live bits (composition of the two derived bit maps is the identity)", 14)
@@ -242,4 +298,6 @@ func runC19(r *Run) {
 	}
 	rr.Done()
 	inv.Done()
+	// the type value reaches bytes [0:2) of the header unchanged (shared with C03)
+	r.Borrow("C03", map[string]string{"C03.header": "C19.header"})
 }
